@@ -1267,3 +1267,174 @@ def r_equality_sides(ck, P, rid):
                     ck.violation(R, fn, '%s vs %s (%s)' % (nm(a).split('/')[-1], nm(b).split('/')[-1], _w(u)), '%s is tested strictly greater than %s at %s and strictly less at %s, and neither test is control-dependent on the other: when the two are equal the first treats the span as not yet finished and the second as already finished, so a boundary that falls exactly on a box edge is handled inconsistently (empty rectangles emitted / wrong overlap class)' % (nm(a).split('/')[-1], nm(b).split('/')[-1], x.loc(), y.loc()), x.loc())
                 else:
                     ck.ok(R, where)
+
+
+def r_instantiation_signedness(ck, P, rid):
+    """sibling agreement between the two instantiations of pixman-region.c: the same source line compares, divides and shifts with the same
+    signedness in the 16-bit and in the 32-bit unit.  overflow_int_t is int in one and int64_t in the other: an expression that mixes
+    it with an unsigned operand is compared as unsigned in the 16-bit unit only."""
+    R = ck.rule(rid, 'every source line of pixman-region.c compiles to comparisons / divisions / right shifts of the same signedness in pixman-region16.c and pixman-region32.c (the usual arithmetic conversions must not turn a signed coordinate comparison into an unsigned one in the instantiation whose overflow_int_t is only as wide as unsigned int)', floor=380)
+    us = units(P)
+    if len(us) != 2:
+        raise AnalysisBroken('expected the two region units')
+    u16, u32 = us
+    def sig(f):
+        d = defaultdict(list)
+        for x in f.insts():
+            k = None
+            if x.op == 'icmp':
+                p = x.d['p']; k = 'signed' if p[0] == 's' else 'unsigned' if p[0] == 'u' else 'equality'
+                k = 'compare ' + k
+            elif x.op in ('sdiv', 'srem', 'ashr'):
+                k = 'signed ' + {'sdiv': 'division', 'srem': 'remainder', 'ashr': 'shift'}[x.op]
+            elif x.op in ('udiv', 'urem', 'lshr'):
+                k = 'unsigned ' + {'udiv': 'division', 'urem': 'remainder', 'lshr': 'shift'}[x.op]
+            if k:
+                d[x.d.get('l')].append((k, x))
+        return d
+    for fn, f in sorted(u16.functions.items()):
+        g = u32.functions.get(fn.replace('pixman_region_', 'pixman_region32_')) or u32.functions.get(fn)
+        if g is None:
+            continue
+        ck.saw(f); ck.saw(g)
+        a, b = sig(f), sig(g)
+        for l in sorted(set(a) | set(b), key=lambda v: v or 0):
+            ka = [k for k, _ in a.get(l, [])]; kb = [k for k, _ in b.get(l, [])]
+            where = '%s / %s line %s' % (fn, g.name, l)
+            if ka == kb:
+                ck.ok(R, where)
+            elif sorted(k.split()[0] if k.startswith('compare') else k for k in ka) == sorted(k.split()[0] if k.startswith('compare') else k for k in kb) and len(ka) == len(kb):
+                x = next(x for (k, x), k2 in zip(a[l], kb) if k != k2)
+                k16 = next(k for (k, _), k2 in zip(a[l], kb) if k != k2); k32 = next(k2 for (k, _), k2 in zip(a[l], kb) if k != k2)
+                ck.violation(R, fn, 'line %s of pixman-region.c' % l, 'the same source line is a %s in the 16-bit instantiation and a %s in the 32-bit one: the two libraries order (or scale) the same coordinates differently, and the one that treats a negative coordinate as a large unsigned number is wrong' % (k16, k32), x.loc())
+            else:
+                ck.incomplete(R, '%s: the two instantiations have different operations on this line (%s vs %s)' % (where, ka, kb))
+
+
+def r5_8_cached_field_follows_cursor(ck, P):
+    """sibling agreement between the advance sites of one cursor: a loop variable that is re-read from the element the cursor has just
+    moved to (x1 = r1->x1 after r1++) is re-read at every site that moves the cursor."""
+    from .factors import _loops_of
+    R = ck.rule('C05-R8', 'in the band loops, a loop-carried variable that is reloaded from the element a cursor has just advanced to (the left fence x1 = r1->x1 after r1++ in subtract) is reloaded at every advance of that cursor: an advance that keeps the old value leaves the fence inside the previous rectangle', floor=4)
+    for u in units(P):
+        L = _loops_of(u)
+        for fn, loops in sorted(L.items()):
+            f = u.functions.get(fn)
+            if f is None:
+                continue
+            for lp in loops:
+                blocks = set(lp['blocks']); hdr = lp['header']
+                pps = [f.by_id[p['v']] for p in lp['phis'] if p['ty'].endswith('*')]
+                xps = [f.by_id[p['v']] for p in lp['phis'] if not p['ty'].endswith('*')]
+                for Pp in pps:
+                    adv = []; seen = set(); work = [a for a, bb in zip(Pp.a, Pp.d['bb']) if bb in blocks]
+                    while work:
+                        o = work.pop(); x = f.v(o)
+                        if x is None or x.i in seen:
+                            continue
+                        seen.add(x.i)
+                        if x.op == 'phi' and x.bb.id in blocks and x.i != Pp.i:
+                            work.extend(x.a)
+                        elif x.op == 'getelementptr' and x.a[0] == ['v', Pp.i] and len(x.d.get('path', [])) == 1 and x.d['path'][0][0] == 'p' and x.d['path'][0][1][0] == 'c':
+                            adv.append(x)
+                    if not adv:
+                        continue
+                    for Xp in xps:
+                        res = []
+                        for A in adv:
+                            ok = False
+                            for y in f.users(A):
+                                if y.op != 'getelementptr':
+                                    continue
+                                for z in f.users(y):
+                                    if z.op != 'load':
+                                        continue
+                                    s2 = set(); w2 = [z]
+                                    while w2 and not ok:
+                                        q = w2.pop()
+                                        for r in f.users(q):
+                                            if r.i in s2:
+                                                continue
+                                            s2.add(r.i)
+                                            if r.i == Xp.i:
+                                                ok = True
+                                            elif r.op in ('phi', 'sext', 'zext', 'trunc') and r.bb.id in blocks:
+                                                w2.append(r)
+                            res.append(ok)
+                        if not any(res):
+                            continue
+                        ck.saw(f)
+                        where = '%s/%s loop at block %d: %s cached from %s (%d advance sites)' % (u.name, fn, hdr, Xp.dv or 'value', Pp.dv or 'cursor', len(adv))
+                        if all(res):
+                            ck.ok(R, where)
+                        else:
+                            A = adv[res.index(False)]
+                            ck.violation(R, fn, 'advance of %s at %s (%s)' % (Pp.dv or 'the cursor', A.loc(), _w(u)), '%s is re-read from the new element at %d of the %d places that advance %s, but not after the advance at %s: on that path it keeps a value taken from the previous rectangle, so the next rectangle is processed from a left edge that is not its own' % (Xp.dv or 'the cached value', sum(res), len(res), Pp.dv or 'the cursor', A.loc()), A.loc())
+
+
+def r7_8_range_test_siblings(ck, P):
+    """sibling agreement: translate decides "entirely outside the coordinate range" twice, for the extents and for every box, with
+    an or of four differences; both tests pair the same edge with the same limit."""
+    R = ck.rule('C07-R8', 'in translate, the test that a rectangle lies entirely outside the representable range is the same expression for the extents and for each box: (x2 - MIN) | (y2 - MIN) | (MAX - x1) | (MAX - y1) pairs each limit with the opposite edge; the two or-trees that are compared the same way against 0 consist of the same (limit, edge) pairs', floor=2)
+    for u in units(P):
+        for fn, f in sorted(u.functions.items()):
+            if not fn.endswith('_translate'):
+                continue
+            def edge(o, d=0):
+                """the box field a translated coordinate comes from"""
+                x = f.v(o)
+                if x is None or d > 8:
+                    return None
+                if x.op in ('sext', 'zext', 'trunc'):
+                    return edge(x.a[0], d + 1)
+                if x.op == 'add':
+                    return edge(x.a[0], d + 1) or edge(x.a[1], d + 1)
+                if x.op == 'load':
+                    p = f.path(x.a[0])
+                    fs = [s for s in p[1] if isinstance(s, str) and '.' in s]
+                    return fs[-1].split('.')[-1] if fs and fs[-1].split('.')[-1] in ('x1', 'x2', 'y1', 'y2') else None
+                return None
+            def leaves(o, d=0):
+                x = f.v(o)
+                if x is not None and x.op == 'or' and d < 6:
+                    return leaves(x.a[0], d + 1) + leaves(x.a[1], d + 1)
+                return [o]
+            tests = defaultdict(list)
+            for x in f.insts():
+                if x.op != 'icmp' or not (x.a[1][0] == 'c' and int(x.a[1][1]) == 0):
+                    continue
+                lv = leaves(x.a[0])
+                if len(lv) < 4:
+                    continue
+                sig = []
+                for o in lv:
+                    y = f.v(o)
+                    if y is None or y.op != 'sub':
+                        sig = None; break
+                    a, b = y.a
+                    if a[0] == 'c':
+                        e = edge(b); sig.append(('limit %s - ' % ('MAX' if int(a[1]) > 0 else 'MIN')) + str(e))
+                    elif b[0] == 'c':
+                        e = edge(a); sig.append(str(e) + (' - limit %s' % ('MAX' if int(b[1]) > 0 else 'MIN')))
+                    else:
+                        sig = None; break
+                    if e is None:
+                        sig = None; break
+                if sig is not None:
+                    tests[x.d['p']].append((sorted(sig), x))
+            ck.saw(f)
+            n = 0
+            for pr, ts in sorted(tests.items()):
+                if len(ts) < 2:
+                    continue
+                n += 1
+                ref, x0 = ts[0]
+                diff = [(s, x) for s, x in ts[1:] if s != ref]
+                where = '%s/%s: %d range tests compared %s 0' % (u.name, fn, len(ts), pr)
+                if diff:
+                    s, x = diff[0]
+                    ck.violation(R, fn, 'range test at %s (%s)' % (x.loc(), _w(u)), 'the range test at %s combines {%s} while its sibling at %s combines {%s}: one of them pairs a limit with the wrong edge, so a rectangle that only straddles the limit is treated like one that lies wholly beyond it (or the reverse)' % (x.loc(), ', '.join(s), x0.loc(), ', '.join(ref)), x.loc())
+                else:
+                    ck.ok(R, where)
+            if n == 0:
+                ck.incomplete(R, '%s/%s: no pair of sibling range tests found' % (u.name, fn))
